@@ -70,6 +70,40 @@ def one(rec, hub, seed, tier, i):
         st2 = S.lm_state(lm)
         st2["prms"] = new_truth
         S.check_tables(rec, st2, np.asarray(lm.sf), np.asarray(lm.pdf), "C08", where="after set_prms with the same objects changed in place")
+    if i % 6 == 3:
+        # parameters first given as whole numbers in an integer dtype (lifetimes in years), fractional ones later
+        ints = {k: np.maximum(np.round(np.array(v, dtype=float)), 1.0).astype(np.int64) for k, v in cfg["truth"].items()}
+        form = int(rng.integers(0, 3))
+        given = {k: (fd.FlodymArray(dims=cfg["dims"], values=v) if form == 0 else fd.Parameter(dims=cfg["dims"], values=v, name=k) if form == 1 else v) for k, v in ints.items()}
+        lm_i = getattr(fd, model)(dims=cfg["dims"], time_letter=cfg["tl"], inflow_at=cfg["inflow_at"], n_pts_per_interval=cfg["n_pts"], **given)
+        st_i = S.lm_state(lm_i)
+        st_i["prms"] = {k: np.array(v, dtype=float) for k, v in ints.items()}
+        S.check_tables(rec, st_i, np.asarray(lm_i.sf), np.asarray(lm_i.pdf), "C08", where="whole-number parameters in an integer dtype")
+        lm_i.set_prms(**{k: fd.FlodymArray(dims=cfg["dims"], values=np.array(v, dtype=float)) for k, v in cfg["truth"].items()})
+        st_i = S.lm_state(lm_i)
+        st_i["prms"] = {k: np.array(v, dtype=float) for k, v in cfg["truth"].items()}
+        S.check_tables(rec, st_i, np.asarray(lm_i.sf), np.asarray(lm_i.pdf), "C08", where="fractional parameters after whole-number ones")
+    if i % 5 == 2:
+        # copies of a model (shallow model_copy, deepcopy, pickle round trip) are models of their own: re-parameterising the original
+        # leaves their tables those of the parameters THEY hold
+        import copy as _copy
+        import pickle as _pickle
+
+        lm0 = dsm.build_lm(fd, cfg)
+        np.asarray(lm0.sf), np.asarray(lm0.pdf)
+        how = ["model_copy", "deepcopy", "pickle", "model_copy-deep"][int(rng.integers(0, 4))]
+        try:
+            twin = {"model_copy": lambda: lm0.model_copy(), "deepcopy": lambda: _copy.deepcopy(lm0), "pickle": lambda: _pickle.loads(_pickle.dumps(lm0)), "model_copy-deep": lambda: lm0.model_copy(deep=True)}[how]()
+        except Exception as e:
+            twin = None
+            rec.skip("sf-tables", f"{how} of a lifetime model not possible: {type(e).__name__}")
+        if twin is not None:
+            np.asarray(twin.sf)
+            lm0.set_prms(**{k: np.array(v) * (1.4 if k in ("mean", "weibull_scale") else 1.0) for k, v in cfg["truth"].items()})
+            np.asarray(lm0.sf), np.asarray(lm0.pdf)
+            st_t = S.lm_state(twin)
+            st_t["prms"] = {k: np.array(v, dtype=float) for k, v in cfg["truth"].items()}
+            S.check_tables(rec, st_t, np.asarray(twin.sf), np.asarray(twin.pdf), "C08", where=f"{how} of a model whose original was re-parameterised afterwards")
     rec.event("parameter-shapes", sig="|".join(f"{k}:{''.join(v[0])}" for k, v in cfg["given"].items()) + f"|{cfg['shape']}", cls="param-dims|" + ",".join(str(len(v[0])) for v in cfg["given"].values()))
 
 
